@@ -294,6 +294,7 @@ INDEPENDENT = {
     "consts": {"C19"},
     "fingerprints": set(),
     "gating": set(ALL_PIDS) - {"C16"},
+    "layouts": set(ALL_PIDS) - {"C07", "C09"},
 }
 
 
@@ -1797,7 +1798,9 @@ PROPS = {
                     "every boundary × {short, extended} × {no Le, Le} × {CommandView, Command<7609>}; random and malformed APDUs",
             "assumptions": ["iso7816 0.1.4 framing behaves as modelled (App. A)"]},
     "C09": {"ns": "C09", "cases": cases_c09,
-            "level_text": "Proof. Hand model of ctap1::Response::serialize as a chain of atomic bounded appends with early "
+            "level_text": "Proof. The three arms of ctap1::Response::serialize are translated statement by statement into layout "
+                          "lists on every run (obligation ob_layout: equal to the U2F raw-message layouts; theorem "
+                          "source_is_model: the layout interpreter on them is the model below). Model of ctap1::Response::serialize as a chain of atomic bounded appends with early "
                           "return; theorem serialize_spec: for every response, prior buffer content and capacity the call "
                           "succeeds iff prior+layout fits and then leaves prior ++ layout (layout from the U2F raw message "
                           "format, big-endian counter by division), otherwise reports failure with prior still a prefix; "
@@ -1808,7 +1811,11 @@ PROPS = {
                     "around the total; 64, 1500, 7609} × prior {empty, short, half}",
             "assumptions": ["on failure only 'prior is a prefix' is specified; the oracle compares the verdict, the model the bytes"]},
     "C07": {"ns": "C07", "cases": cases_c07,
-            "level_text": "Proof. Hand model of AuthenticatorData::serialize / AttestedCredentialData::serialize as a chain of "
+            "level_text": "Proof. The bodies of AuthenticatorData::serialize and AttestedCredentialData::serialize are translated "
+                          "statement by statement into layout lists (slice / byte / big-endian field / fallible 16-bit length / "
+                          "optional nested / optional CBOR part; every append must propagate its failure) on every run; "
+                          "obligation ob_layout: they equal the specified layouts; theorem source_is_model: the layout "
+                          "interpreter on them is the model below. Model of AuthenticatorData::serialize / AttestedCredentialData::serialize as a chain of "
                           "atomic bounded appends (chain_none / chain_some / chain_too_long), with the extension map arriving in "
                           "any chunking; theorem layout: for every rpIdHash, flag byte, counter < 2^32, optional attested "
                           "credential data of any lengths and optional extension bytes the result equals the WebAuthn layout "
